@@ -690,7 +690,7 @@ func c12Classify(k, n int, ops []c12Opnd, res, cv *big.Int) string {
 }
 
 func runC12(c *Ctx) error {
-	// developer knob: C12_ONLY=eval|doors|bind|calls|multi runs one family only
+	// developer knob: C12_ONLY=eval|doors|bind|calls|multi|nest runs one family only
 	switch os.Getenv("C12_ONLY") {
 	case "eval":
 		runC12Eval(c)
@@ -706,6 +706,9 @@ func runC12(c *Ctx) error {
 		return nil
 	case "multi":
 		runC12Multi(c)
+		return nil
+	case "nest":
+		runC12Nest(c)
 		return nil
 	}
 	widths := []int{1, 2, 7, 8, 9, 31, 32, 33, 63, 64, 65, 127, 128, 129, 130}
@@ -1008,6 +1011,7 @@ func runC12(c *Ctx) error {
 	runC12Bind(c)
 	runC12Eval(c)
 	runC12Doors(c)
+	runC12Nest(c)
 	c.Note("programs compiled: %d; constant variants with the operator folded away: %d, not folded: %d", nPrograms, nFolded, nNotFolded)
 	return nil
 }
